@@ -8,6 +8,7 @@
  *        PA <raw tree of A>  PB <raw tree of B> (hwv_ptree.h; the model computes PB from PA)
  *        allocseq <n> <size>...                 sizes requested through hwloc_tma_malloc by hwloc__topology_dup(A) (logging tma)
  *        share <field> copied= shared= mismatch= / overlap <fieldA> <fieldB>      sharing pattern of (A,B)
+ *        pubdup same|DIFF                       observation of the public hwloc_topology_dup(A) against the original (B itself is hwloc__topology_dup(A))
  *        dupdup same|DIFF                       observation of a duplicate of the duplicate against the original
  *        firstq <family>.<accessor> same|DIFF   each accessor of the lazily refreshed state (memattrs, distances, cpukinds) as the FIRST
  *                                               query on a fresh duplicate, against the original's answer
@@ -364,17 +365,23 @@ static void print_firstq(hwloc_topology_t A)
   struct cand c[16]; unsigned nc = collect_cands(A, c, 16), i; int fam, acc; char names[8][40]; unsigned nnames = 0;
   static const char *mn[] = { "best_initiator", "best_target", "get_value", "get_targets", "get_initiators" }, *dn[] = { "get", "get_by_depth", "get_by_name", "get_by_type" }, *kn[] = { "get_nr", "get_by_cpuset", "get_info" };
   { struct hwloc_distances_s *ds[8]; unsigned n = 8; if (!hwloc_distances_get(A, &n, ds, 0, 0)) for (i = 0; i < n && i < 8; i++) { const char *nm = hwloc_distances_get_name(A, ds[i]); snprintf(names[nnames++], 40, "%s", nm ? nm : "-"); hwloc_distances_release(A, ds[i]); } }
+  /* two kinds of fresh duplicates: the public hwloc_topology_dup (refreshes the copy since /repo e42f29e) and the internal
+     hwloc__topology_dup(..., NULL) whose caches are invalid (what the shmem writer and other internal callers start from):
+     on both, every accessor used first must answer like the original ("firstq" public, "firstq0" internal) */
+  int internal;
+  for (internal = 0; internal < 2; internal++)
   for (fam = 0; fam < 3; fam++) for (acc = 0; acc < (fam == 0 ? 5 : fam == 1 ? 4 : 3); acc++) {
     hwloc_topology_t D = NULL; char *ba = NULL, *bd = NULL; size_t la = 0, ld = 0; FILE *fa, *fd; const char *nm = fam == 0 ? mn[acc] : fam == 1 ? dn[acc] : kn[acc];
-    if (hwloc_topology_dup(&D, A) < 0) { printf("firstq %s dup-failed\n", nm); continue; }
+    const char *tag = internal ? "firstq0" : "firstq";
+    if ((internal ? hwloc__topology_dup(&D, A, NULL) : hwloc_topology_dup(&D, A)) < 0) { printf("%s %s dup-failed\n", tag, nm); continue; }
     fd = open_memstream(&bd, &ld); fa = open_memstream(&ba, &la);
     /* the copy first: its caches are in the state the dup left them */
     if (fam == 0) { q_memattr(fd, D, acc, c, nc); q_memattr(fa, A, acc, c, nc); }
     else if (fam == 1) { q_distances(fd, D, acc, names, nnames); q_distances(fa, A, acc, names, nnames); }
     else { q_cpukinds(fd, D, acc); q_cpukinds(fa, A, acc); }
     fclose(fd); fclose(fa);
-    if (!strcmp(ba, bd)) printf("firstq %s.%s same\n", fam == 0 ? "memattr" : fam == 1 ? "distances" : "cpukinds", nm);
-    else { printf("firstq %s.%s DIFF", fam == 0 ? "memattr" : fam == 1 ? "distances" : "cpukinds", nm); hwv_first_diff(stdout, ba, bd); fputc('\n', stdout); }
+    if (!strcmp(ba, bd)) printf("%s %s.%s same\n", tag, fam == 0 ? "memattr" : fam == 1 ? "distances" : "cpukinds", nm);
+    else { printf("%s %s.%s DIFF", tag, fam == 0 ? "memattr" : fam == 1 ? "distances" : "cpukinds", nm); hwv_first_diff(stdout, ba, bd); fputc('\n', stdout); }
     free(ba); free(bd); hwloc_topology_destroy(D);
   }
   for (i = 0; i < nc; i++) if (c[i].cs) hwloc_bitmap_free(c[i].cs);
@@ -419,6 +426,12 @@ static void do_dup(hwloc_topology_t A, hwloc_topology_t *Bp)
     if (!rc) hwloc_topology_destroy(C);
     free(log.sizes); free(log.ptrs);
   }
+  { /* the public duplicate (hwloc__topology_dup + refresh of the copy) must report what the original reports */
+    hwloc_topology_t P = NULL;
+    if (hwloc_topology_dup(&P, A) < 0) printf("pubdup rc=-1 errno=%s\n", hwv_errno_class(errno));
+    else { char *oa = hwv_observe_str(A, 1), *op = hwv_observe_str(P, 1);
+      if (!strcmp(oa, op)) printf("pubdup same\n"); else { fputs("pubdup DIFF", stdout); hwv_first_diff(stdout, oa, op); fputc('\n', stdout); }
+      free(oa); free(op); hwloc_topology_destroy(P); } }
   { /* a duplicate of the duplicate must report what the original reports */
     hwloc_topology_t C = NULL; int rc2 = hwloc_topology_dup(&C, *Bp);
     if (rc2 < 0) printf("dupdup rc=-1 errno=%s\n", hwv_errno_class(errno));
